@@ -437,6 +437,9 @@ func (c *FCGIClient) Request(p map[string]string, req io.Reader) (resp *http.Res
 	if resp.Header.Get("Status") != "" {
 		statusParts := strings.SplitN(resp.Header.Get("Status"), " ", 2)
 		resp.StatusCode, err = strconv.Atoi(statusParts[0])
+		if err == nil && (resp.StatusCode < 100 || resp.StatusCode > 999) {
+			err = errors.New("fcgi: invalid status code " + statusParts[0])
+		}
 		if err != nil {
 			return
 		}
